@@ -29,7 +29,8 @@ type Backing struct {
 	id     int
 	origin string // "global:<name>", "alloc:<fn>", "input", "const", ...
 	flt    *FloatText
-	opaque string // non-empty: contents are not modelled (reading is unsupported)
+	opaque string      // non-empty: contents are not modelled (reading is unsupported)
+	json   interface{} // *JNode when the bytes are json.Marshal output
 }
 
 // FloatText marks a byte backing as "the text strconv.AppendFloat produced"
